@@ -34,9 +34,12 @@ package rest
 //	       error / a string / http.ErrAbortHandler, goexit calls runtime.Goexit.  Outcomes then carry ` status=<c>`
 //	       (route handler ran, response status not 200), ` end=<kind>`, ` esc=<panic|goexit>` (it left ServeHTTP).
 //	opt cors                            rest.WithCors()  (OPTIONS requests => "204 cors"; 405 situation => "na=204404 code=404")
+//	opt corsh | opt ccors               rest.WithCorsHeaders / rest.WithCustomCors
+//	opt files=<dir>                     rest.WithFileServer(dir, fs) (files a, b/c, x.txt, api/a; outcome "file=<name>")
 //	opt router                          rest.WithRouter(router.NewRouter())
 //	opt chain=<n>                       rest.WithChain(chain.New(c1 … cn)) (trail tokens c<i>; replaces the native chain)
-//	use id=<k>               => ok      Server.Use(middleware u<k>)
+//	use id=<k>               => ok      Server.Use(middleware u<k>); k >= 900: it answers itself (202) and does not call next
+//	                                    (outcome "stopped mw=<trail>")
 //	start                    => listen | panic:<verdict>     Server.Start() with a port that cannot be opened
 //	cfg must=1                          the server is built by rest.MustNewServer
 //	herr k=<kind>              => returned | panic:same-error | panic:other     handleError(err) with err = nil, ErrServerClosed,
@@ -47,6 +50,7 @@ package rest
 import (
 	"errors"
 	"fmt"
+	iofs "io/fs"
 	"net"
 	"net/http"
 	"net/http/httptest"
@@ -56,6 +60,7 @@ import (
 	"sort"
 	"strings"
 	"testing"
+	"testing/fstest"
 	"time"
 
 	"github.com/golang-jwt/jwt/v4"
@@ -120,6 +125,9 @@ func c09SrvUses(r *verifh.Rng, ops []string, lo int) []string {
 	for i, n := 0, r.Pick(1, 1, 2); i < n; i++ {
 		at := lo + r.Intn(len(ops)-lo+1)
 		op := fmt.Sprintf("use id=%d", i+1)
+		if r.Chance(1, 5) {
+			op = fmt.Sprintf("use id=%d", 901+i) // does not call next
+		}
 		ops = append(ops[:at], append([]string{op}, ops[at:]...)...)
 	}
 	return ops
@@ -128,6 +136,15 @@ func c09SrvUses(r *verifh.Rng, ops []string, lo int) []string {
 // c09SrvOthers: in one section of five a second server is alive next to the first: some of the requests are also sent
 // to it (it knows none of the first server's routes), and its own route is asked from both.
 func c09SrvOthers(r *verifh.Rng, ops []string) []string {
+	for _, op := range ops {
+		if strings.HasPrefix(op, "opt files=") {
+			dir := strings.TrimSuffix(strings.TrimPrefix(op, "opt files="), "/")
+			for i, n := 0, r.Range(2, 5); i < n; i++ {
+				ops = append(ops, fmt.Sprintf("req m=%s p=%s%s n=1", r.PickS("GET", "GET", "GET", "POST", "HEAD"), dir,
+					r.PickS("/a", "//a", "/b/c", "/x.txt", "/api/a", "/a/", "/b", "/zz", "/", "", "/b//c", "/a/../a")))
+			}
+		}
+	}
 	if !r.Chance(1, 5) {
 		return ops
 	}
@@ -182,9 +199,11 @@ func (g *c09SrvGen) section() verifh.Section {
 	var ops []string
 	// options (a later one overwrites an earlier one)
 	for i, n := 0, r.Pick(0, 0, 1, 1, 2, 3); i < n; i++ {
-		switch r.Intn(10) {
+		switch r.Intn(11) {
+		case 10:
+			ops = append(ops, "opt files="+r.PickS("/static", "/static/", "/api", "/a", "/"))
 		case 9:
-			ops = append(ops, "opt cors")
+			ops = append(ops, "opt "+r.PickS("cors", "corsh", "ccors"))
 		case 8:
 			ops = append(ops, "opt chain="+r.PickS("0", "1", "2"))
 		case 7:
@@ -414,9 +433,11 @@ func (g *c09SrvGen) sectionAPI() verifh.Section {
 	r := g.r
 	var ops []string
 	for i, n := 0, r.Pick(0, 0, 1, 2); i < n; i++ {
-		switch r.Intn(7) {
+		switch r.Intn(8) {
+		case 7:
+			ops = append(ops, "opt files="+r.PickS("/static", "/static/", "/api", "/a", "/"))
 		case 6:
-			ops = append(ops, "opt cors")
+			ops = append(ops, "opt "+r.PickS("cors", "corsh", "ccors"))
 		case 5:
 			ops = append(ops, "opt chain="+r.PickS("0", "1", "2"))
 		case 4:
@@ -822,10 +843,12 @@ func TestVerifC09Server(t *testing.T) {
 				if rec.Code != 200 {
 					o += fmt.Sprintf(" status=%d", rec.Code)
 				}
-			case len(hits) == 0 && len(trail) == 0 && rec.Header().Get("Access-Control-Allow-Origin") != "" &&
+			case len(hits) == 0 && len(trail) == 0 && strings.HasPrefix(rec.Body.String(), "c09-file:"):
+				o = "file=" + strings.TrimPrefix(rec.Body.String(), "c09-file:") // WithFileServer: http.FileServer served it
+			case len(hits) == 0 && len(trail) == 0 && c09SrvCors(rec) &&
 				rec.Code == http.StatusNoContent && req.Method == http.MethodOptions:
 				o = "204 cors" // WithCors: the CORS middleware answered the OPTIONS request
-			case len(hits) == 0 && len(trail) == 0 && rec.Header().Get("Access-Control-Allow-Origin") != "" &&
+			case len(hits) == 0 && len(trail) == 0 && c09SrvCors(rec) &&
 				rec.Code == http.StatusNotFound && rec.Body.Len() == 0:
 				o = "na=204404 code=404" // cors.NotAllowedHandler (the built-in not-found handlers write a body)
 			case len(hits) == 0 && rec.Code == http.StatusUnauthorized:
@@ -833,6 +856,8 @@ func TestVerifC09Server(t *testing.T) {
 				if len(trail) > 0 {
 					o += " mw=" + strings.Join(trail, ".") // the WithChain middlewares sit in front of Authorize
 				}
+			case len(trail) > 0 && len(hits) == 0 && rec.Code == http.StatusAccepted:
+				o = "stopped mw=" + strings.Join(trail, ".") // a Use middleware answered itself
 			case len(trail) > 0:
 				o = "middleware-without-handler=" + strings.Join(trail, ".")
 			case len(hits) == 1:
@@ -889,6 +914,18 @@ func TestVerifC09Server(t *testing.T) {
 					opts = append(opts, WithCors())
 					return "ok"
 				}
+				if len(op) == 2 && op[1] == "corsh" {
+					opts = append(opts, WithCorsHeaders("X-C09"))
+					return "ok"
+				}
+				if len(op) == 2 && op[1] == "ccors" {
+					opts = append(opts, WithCustomCors(func(h http.Header) { h.Set("X-C09-Cors", "1") }, func(w http.ResponseWriter) {}))
+					return "ok"
+				}
+				if v, ok := c09SrvArg(op, "files="); ok {
+					opts = append(opts, WithFileServer(v, c09FS{}))
+					return "ok"
+				}
 				if len(op) == 2 && op[1] == "router" {
 					opts = append(opts, WithRouter(router.NewRouter()))
 					return "ok"
@@ -914,9 +951,14 @@ func TestVerifC09Server(t *testing.T) {
 				if !ok {
 					return "bad-op"
 				}
+				stops := verifh.Atoi(ids) >= 900 // a middleware that answers itself and does not call next
 				srv.Use(func(next http.HandlerFunc) http.HandlerFunc {
 					return func(w http.ResponseWriter, r *http.Request) {
 						trail = append(trail, "u"+ids)
+						if stops {
+							w.WriteHeader(http.StatusAccepted)
+							return
+						}
 						next(w, r)
 					}
 				})
@@ -1154,6 +1196,39 @@ func c09SrvHandleError(err error) (out string) {
 	}()
 	handleError(err)
 	return "returned"
+}
+
+// c09FS is the file system given to WithFileServer: the files a, b/c, x.txt, api/a (content "c09-file:<name>"); one
+// leading '/' of the name is ignored, nothing else exists (no directories, no ".").
+type c09FS struct{}
+
+var c09Files = fstest.MapFS{
+	"a":     {Data: []byte("c09-file:a")},
+	"b/c":   {Data: []byte("c09-file:b/c")},
+	"x.txt": {Data: []byte("c09-file:x.txt")},
+	"api/a": {Data: []byte("c09-file:api/a")},
+}
+
+func (c09FS) Open(name string) (http.File, error) {
+	n := strings.TrimPrefix(name, "/")
+	if n != name && strings.HasPrefix(n, "/") {
+		return nil, iofs.ErrNotExist
+	}
+	if f, ok := c09Files[n]; !ok || f == nil {
+		return nil, iofs.ErrNotExist
+	}
+	return http.FS(c09Files).Open("/" + n)
+}
+
+// c09SrvCors: the CORS code answered or passed the request on (it always adds `Vary: Origin`; WithCorsHeaders leaves
+// Access-Control-Allow-Origin empty for a request without Origin header).
+func c09SrvCors(rec *httptest.ResponseRecorder) bool {
+	for _, v := range rec.Header().Values("Vary") {
+		if v == "Origin" {
+			return true
+		}
+	}
+	return false
 }
 
 func c09SrvVerdict(err error) string {
